@@ -28,24 +28,26 @@ Definition w_mismatch (c : wcase) : bool := negb (list_eqb perm_eqb (run rinit (
 Definition w_mismatches (cs : list wcase) : list nat := positions (map w_mismatch cs).
 
 (** the implementation's behaviour judged by the property acceptors *)
-Definition c08_violates (c : wcase) : bool := negb (c08_monitor (w_ops c) (w_obs c)).
+(** every program is judged by the state-based acceptor; a plain one also by the declarative reading *)
+Definition c08_violates (c : wcase) : bool :=
+  negb (c08_monitor_st (w_ops c) (w_obs c)) || (plain (w_ops c) && negb (c08_monitor (w_ops c) (w_obs c))).
 Definition c08_violations (cs : list wcase) : list nat := positions (map c08_violates cs).
 
 (** for the replay file: number (0-based, among the ODeliver ops) of the first delivery the acceptor
     rejects / the model disagrees on; the length of the list when there is none *)
-Fixpoint first_bad (same : list ev -> list ev -> bool) (pre ops : list op)
+Fixpoint first_bad (same : list ev -> list ev -> bool) (st : rstate) (ops : list op)
          (obss : list (list (N * list ev))) (k : nat) : nat :=
   match ops with
   | [] => k
   | ODeliver d :: r =>
       match obss with
-      | obs :: obss' => if obs_ok same pre d obs then first_bad same (pre ++ [ODeliver d]) r obss' (S k) else k
+      | obs :: obss' => if obs_ok_st same st d obs then first_bad same st r obss' (S k) else k
       | [] => k
       end
-  | o :: r => first_bad same (pre ++ [o]) r obss k
+  | o :: r => first_bad same (step st o) r obss k
   end.
-Definition c08_first_bad (c : wcase) : nat := first_bad c08_same [] (w_ops c) (w_obs c) 0.
-Definition c09_first_bad (c : wcase) : nat := first_bad c09_same [] (w_ops c) (w_obs c) 0.
+Definition c08_first_bad (c : wcase) : nat := first_bad c08_same rinit (w_ops c) (w_obs c) 0.
+Definition c09_first_bad (c : wcase) : nat := first_bad c09_same rinit (w_ops c) (w_obs c) 0.
 Fixpoint first_diff (a b : list (list (N * list ev))) (k : nat) : nat :=
   match a, b with
   | x :: a', y :: b' => if perm_eqb x y then first_diff a' b' (S k) else k
